@@ -6,6 +6,7 @@
     success, an error on both sides otherwise (the error class may differ: data vs I/O). *)
 From Coq Require Import List NArith.
 Require Import Base Schema Varint Reader Target De Denote ReaderProofs.
+Require Import Wf Container ContainerChunkProofs.
 Import ListNotations.
 
 (* the varint primitive, all four integer types: if the buffer holds the whole varint both read it
@@ -39,3 +40,17 @@ Proof.
   destruct (de_datum fuel Sc cfg t (slice_reader bs)) as [[d1 k1]| | | |];
   destruct (de_datum fuel Sc cfg t (chunked_reader bs plan ma)) as [[d2 k2]| | | |]; exact G.
 Qed.
+
+(* container-file input: opening and reading a file through a BufRead with ANY chunk plan gives the same
+   metadata, the same values (up to borrowedness) and the same end of stream as from the slice (null
+   codec; on damaged files the two readers may report different errors at different points, see
+   chunked_differs_on_truncated_block, which the property allows: "an error in both cases") *)
+Theorem C11_container : forall Sc cfg t file plan ma m sy s' n ds k,
+  schema_wf Sc = true -> (N.of_nat (length file) <= ma)%N ->
+  cr_open (slice_reader file) = Ok (m, sy, s') ->
+  cr_run Sc cfg sy t n (mkCR (RNotInBlock s') false) = map IValue ds ++ repeat IEof k ->
+  exists r' ds',
+    cr_open (chunked_reader file plan ma) = Ok (m, sy, r') /\
+    cr_run Sc cfg sy t n (mkCR (RNotInBlock r') false) = map IValue ds' ++ repeat IEof k /\
+    map erase_borrow ds' = map erase_borrow ds.
+Proof. exact container_chunk_independent. Qed.
